@@ -229,19 +229,38 @@ static int URI_FUNC(RemoveBaseUriImpl)(URI_TYPE(Uri) * dest,
 	/* [19/50]	         bool pathNaked = true; */
 							UriBool pathNaked = URI_TRUE;
 	/* [20/50]	         undef(last(Base.path)); */
-							/* NOOP */
+							/* GROUPED: the last segment of the base is not a directory and
+							 * the last segment of the source names the target itself,
+							 * so the walk below stops in front of either */
 	/* [21/50]	         T.path = ""; */
 							dest->absolutePath = URI_FALSE;
 	/* [22/50]	         while (first(A.path) == first(Base.path)) do */
 							while ((sourceSeg != NULL) && (baseSeg != NULL)
-									&& !URI_FUNC(CompareRange)(&sourceSeg->text, &baseSeg->text)
-									&& !((sourceSeg->text.first == sourceSeg->text.afterLast)
-										&& ((sourceSeg->next == NULL) != (baseSeg->next == NULL)))) {
+									&& (sourceSeg->next != NULL) && (baseSeg->next != NULL)
+									&& !URI_FUNC(CompareRange)(&sourceSeg->text, &baseSeg->text)) {
 	/* [23/50]	            A.path++; */
 								sourceSeg = sourceSeg->next;
 	/* [24/50]	            Base.path++; */
 								baseSeg = baseSeg->next;
 	/* [25/50]	         endwhile; */
+							}
+
+							if (((sourceSeg == NULL) && (baseSeg == NULL))
+									|| ((sourceSeg != NULL) && (baseSeg != NULL)
+										&& (sourceSeg->next == NULL) && (baseSeg->next == NULL)
+										&& !URI_FUNC(CompareRange)(&sourceSeg->text, &baseSeg->text))) {
+								/* Same path: the empty path refers to the base itself */
+								sourceSeg = NULL;
+								baseSeg = NULL;
+							} else if (sourceSeg == NULL) {
+								/* Source path empty, base path not: "." (or "..", below)
+								 * leads to the root that an empty path stands for */
+								pathNaked = URI_FALSE;
+								if ((baseSeg->next == NULL)
+										&& !URI_FUNC(AppendSegment)(dest, URI_FUNC(ConstPwd),
+											URI_FUNC(ConstPwd) + 1, memory)) {
+									return URI_ERROR_MALLOC;
+								}
 							}
 	/* [26/50]	         while defined(first(Base.path)) do */
 							while ((baseSeg != NULL) && (baseSeg->next != NULL)) {
